@@ -220,23 +220,19 @@ def work(tasks, idx):
                 if not ok:
                     res.violations.append({"why": "accepted credential does not equal the decoded members (or a member is not a string)",
                                            "value": text, "code": code_d, "match": {"op": "parse_cred_json", "kind": kind, "relation": "fidelity"}})
-                ok = True
-                continue
-                ok = rec["id"] == v["id"] and rec["raw_id"] == dec(v["rawId"]) and rec["client_data_json"] == dec(v["response"]["clientDataJSON"])
-                if kind == "reg":
-                    ok = ok and rec["attestation_object"] == dec(v["response"]["attestationObject"])
-                    tr = v["response"].get("transports")
-                    exp = [t for t in tr if isinstance(t, str) and t in TRANSPORTS] if isinstance(tr, list) else None
-                    ok = ok and rec["transports"] == exp
-                else:
-                    ok = ok and rec["authenticator_data"] == dec(v["response"]["authenticatorData"]) and rec["signature"] == dec(v["response"]["signature"])
-                    uh = v["response"].get("userHandle")
-                    ok = ok and rec["user_handle"] == (dec(uh) if isinstance(uh, str) else None)
-                att = v.get("authenticatorAttachment")
-                ok = ok and rec["authenticator_attachment"] == (att if isinstance(att, str) else None)
-                if not ok:
-                    res.violations.append({"why": "accepted credential does not equal the decoded members", "value": text, "code": code_d,
-                                           "match": {"op": "parse_cred_json", "kind": kind, "relation": "fidelity"}})
+            # JSON text whose top-level value is not an object - e.g. the credential stringified twice, or wrapped in a
+            # list - is not a credential: it must be refused with the structure exception, however valid its content
+            if isinstance(v, dict) and (n < 0 or rng.random() < 0.1):
+                for wrapped, wl in ((json.dumps(text), "json-string-of-the-text"), (json.dumps([v]), "list-of-the-value"),
+                                    (json.dumps(json.dumps(text)), "stringified-three-times")):
+                    code_w = code_parse(kind, wrapped)
+                    res.evaluations += 1
+                    tie.check({"op": "parse_cred_json", "kind": kind, "text": wrapped}, code_w, label=["wrapped", wl])
+                    res.count(f"{kind}:wrapped:" + corr.kind(code_w))
+                    if code_w["k"] == "accept" or "nonlib" in code_w or code_w.get("lib") not in ALLOWED[kind]:
+                        res.violations.append({"why": f"JSON text whose top-level value is not an object ({wl}) was not refused with the "
+                                                      f"structure exception: {str(code_w)[:200]}", "value": wrapped[:400],
+                                               "match": {"op": "parse_cred_json", "kind": kind, "relation": "non-object-text"}})
             if len(res.samples) < 4:
                 res.samples.append({"kind": kind, "value": text[:300], "shape": shape, "outcome": corr.kind(code_d)})
     if drv:
